@@ -205,6 +205,57 @@ def unit_paren(eng):
     return out
 
 
+def unit_text_frame(eng):
+    """frame: the source text of a token (Token.text(), a slice of Context.code) is spelling; after parsing it may be read only to build a
+    diagnostic (inside the arguments of a reports.* call) - a decision taken on it makes the output depend on how an expression is written
+    (which bracket, which blanks, which comment) instead of on the token tree"""
+    import ast
+    from pyvc import frames
+    pkg = os.path.join(driver.tree_root(), "pdpy11")
+    bad = []
+    for mname, tree in frames.parse_package(pkg).items():
+        if mname in ("parser", "context", "reports"):
+            continue                      # the scanner itself and the report renderer read text by definition
+        in_report = set()
+        for node in ast.walk(tree):
+            if isinstance(node, ast.FunctionDef) and node.name == "text":
+                for sub in ast.walk(node):
+                    in_report.add(id(sub))         # the accessor itself
+            if isinstance(node, ast.Call) and isinstance(node.func, ast.Attribute) and frames.root_name(node.func) == "reports":
+                for sub in ast.walk(node):
+                    in_report.add(id(sub))
+        for node in ast.walk(tree):
+            hit = None
+            if isinstance(node, ast.Call) and isinstance(node.func, ast.Attribute) and node.func.attr == "text" and not node.args:
+                hit = frames.text(node)
+            if isinstance(node, ast.Attribute) and node.attr == "code" and isinstance(node.ctx, ast.Load) and frames.text(node).split(".")[-2:-1] in (["ctx_start"], ["ctx_end"], ["ctx"]):
+                hit = frames.text(node)
+            if hit and id(node) not in in_report:
+                bad.append((mname, node.lineno, hit))
+    ob = dict(label="token-source-text-is-read-only-to-build-diagnostics(no decision depends on how an expression is spelled)", kind="frame", status="proved" if not bad else "failed", secs=0.0,
+              path=[], witness=None, detail=str(bad), events=[], smt2=None, backend="ast-inventory", unit="text-frame", func="package-wide frame (AST inventory)", cfg=dict(kind="text-frame"))
+    return dict(unit="text-frame", func="package-wide frame (AST inventory)", paths=1, obligations=[ob], wall=0.0)
+
+
+def replay_text_frame(tree):
+    """bracket styles in a branch operand: ( ) versus < > versus ^/ / must give the same outcome"""
+    groups = [("(%s)", "<%s>", "^/%s/")]
+    progs = ["nop\nbr %s+2\n", "1: nop\nbr 1+%s\n", "a: nop\nsob r1, a+%s\n"]
+    inner = ["1000", "0", "0"]
+    jobs, keys = [], []
+    for pr, inn in zip(progs, inner):
+        for st in groups[0]:
+            jobs.append({"kind": "asm", "sources": [pr % (st % inn)]})
+            keys.append((pr, st))
+    res = driver.native(jobs, tree)
+    out = [(r["status"], r.get("code_hex")) for r in res]
+    bad = []
+    for i in range(0, len(out), 3):
+        if len(set(out[i:i + 3])) != 1:
+            bad.append((jobs[i]["sources"][0], out[i:i + 3]))
+    return dict(jobs=jobs[:3], expected="the three bracket styles of one operand give the same status and bytes", observed=bad, reproduced=bool(bad))
+
+
 # ------------------------------------------------------------------ bounded stand-ins
 def unit_bounded_scanner(eng, tier="quick"):
     maxlen = 6 if tier == "quick" else 7
@@ -258,6 +309,39 @@ result = [n, lits, bad[:5]]
     return dict(unit="bounded-scanner", func="context.Context.skip_whitespace / parser.Parser.literal (bounded stand-in)", paths=n + lits, obligations=obs, wall=0.0)
 
 
+def unit_bounded_literal_case(eng):
+    """bounded stand-in for the scanner's number rules (outside the subset): every letter-case combination of every radix spelling of a set of
+    values assembles to the same word as the plain octal spelling"""
+    import itertools
+    values = [0, 1, 7, 8, 9, 10, 15, 16, 31, 255, 0o777, 0xabc, 0xbeef, 0xffff, 0xfade]
+    spellings = []
+    for v in values:
+        forms = ["0x%x" % v, "0o%o" % v, "0b" + bin(v)[2:], "^x%x" % v, "^o%o" % v, "^b" + bin(v)[2:], "^d%d" % v, "%d." % v, "^c<^c%o>" % v]
+        for f in forms:
+            letters = [i for i, ch in enumerate(f) if ch.isalpha()]
+            if len(letters) > 6:
+                combos = [tuple(ch.upper() == ch for _ in letters) for ch in "aA"] + [tuple((k >> j) & 1 == 1 for j in range(len(letters))) for k in (0b101010, 0b010101, 0b110011, 1, 2)]
+            else:
+                combos = itertools.product((False, True), repeat=len(letters))
+            for c in combos:
+                t = list(f)
+                for i, up in zip(letters, c):
+                    t[i] = t[i].upper() if up else t[i].lower()
+                spellings.append((v, "".join(t)))
+    spellings = sorted(set(spellings))
+    jobs = [{"kind": "asm", "sources": [".word %s\nmov #%s, r0\n" % (sp, sp)]} for _, sp in spellings]
+    res = driver.native(jobs, driver.tree_root(), timeout=900)
+    bad = []
+    for (v, sp), r in zip(spellings, res):
+        want = (v.to_bytes(2, "little") + (0o012700).to_bytes(2, "little") + v.to_bytes(2, "little")).hex()
+        if r["status"] != "ok" or r.get("code_hex") != want:
+            bad.append((sp, "%o" % v, r["status"], r.get("code_hex"), [d[1] for d in r.get("diags", [])][:2]))
+    ob = dict(label="every-letter-case-of-every-radix-spelling(0x 0o 0b ^X ^O ^B ^D ^C, hex digits)-assembles-like-the-octal-spelling", kind="bounded", status="proved" if spellings and not bad else "failed",
+              secs=0.0, path=[], witness=None, detail=str(bad[:5]), events=[], smt2=None, backend="cpython-native", unit="bounded-literal-case", func="parser.number (bounded stand-in)",
+              bound="%d values x 9 radix spellings x every letter-case combination (%d spellings)" % (len(values), len(spellings)), cases=len(spellings), cfg=dict(kind="bounded"))
+    return dict(unit="bounded-literal-case", func="parser.number (bounded stand-in)", paths=len(spellings), obligations=[ob], wall=0.0)
+
+
 # ------------------------------------------------------------------ rac: structured respelling
 def gen_pair(rnd):
     """one program in two spellings that must assemble identically"""
@@ -290,8 +374,8 @@ def gen_pair(rnd):
             vals = [rnd.randrange(0, 65536) for _ in range(rnd.randrange(1, 4))]
             a.append(".word " + ", ".join("%o" % v for v in vals))
             # an implicit word list must not begin with an operator character: the expression grammar lets the previous line continue ('x' newline '^B1' is x ^ B1)
-            first = rnd.choice(["%d." % vals[0], "0x%X" % vals[0], "0o%o" % vals[0], "%o" % vals[0]])
-            rest = [rnd.choice(["%d." % v, "0x%X" % v, "0o%o" % v, "^X%x" % v, "^B" + bin(v)[2:], "%o" % v]) for v in vals[1:]]
+            first = rnd.choice(["%d." % vals[0], "0x%X" % vals[0], "0X%x" % vals[0], "0o%o" % vals[0], "0O%o" % vals[0], "%o" % vals[0]])
+            rest = [rnd.choice(["%d." % v, "0x%X" % v, "0X%x" % v, "0o%o" % v, "0B" + bin(v)[2:], "^X%x" % v, "^x%X" % v, "^B" + bin(v)[2:], "^d%d" % v, "%o" % v]) for v in vals[1:]]
             head = rnd.choice(["", ".WORD ", ".Word\t"])
             if head:
                 first = rnd.choice([first, "^X%x" % vals[0], "^B" + bin(vals[0])[2:]])
@@ -350,6 +434,8 @@ def units(tier):
     for n in (1, 2, 3):
         us.append(("word-forms[%d]" % n, "unit_word_forms", dict(n=n)))
     us.append(("synonyms", "unit_init_closed", {}))
+    us.append(("bounded-literal-case", "unit_bounded_literal_case", {}))
+    us.append(("text-frame", "unit_text_frame", {}))
     return us
 
 
@@ -365,6 +451,10 @@ def canary(eng):
 
 
 def replay(o, tree):
+    if (o.get("cfg") or {}).get("kind") == "text-frame":
+        return replay_text_frame(tree)
+    if o.get("kind") in ("bounded", "rac", "closed"):
+        return None          # evaluated on the real package already: the failing spelling is in the obligation's detail
     old = os.environ.get("PDPY11_SRC")
     os.environ["PDPY11_SRC"] = tree
     try:
